@@ -58,6 +58,7 @@ def run_verus_unit(uid, tier='quick', keep=True):
     res['title'] = unit['title']
     res['assumes'] = list(unit['assumes'])
     res['rewrite_log'] = gen.rewrite_log
+    res['skipped_hints'] = gen.skipped_hints
     gpath = os.path.join(GEN, uid + '.rs')
     with open(gpath, 'w') as f:
         f.write(gen.text())
@@ -66,6 +67,9 @@ def run_verus_unit(uid, tier='quick', keep=True):
     for f in gen.functions:
         res['functions'].append(dict(name=f['name'], kind=f['kind'], file=f['repo_file'], lines=f['repo_lines'],
                                      item=f.get('item'), sha256=f['sha256'], contracted=f.get('contracted', False)))
+    for f in gen.functions:
+        if f.get('imported_from'):
+            res.setdefault('imports', []).append('%s.%s' % (f['imported_from'], f['name']))
     # obligation table
     obls = []
     for f in gen.functions:
@@ -75,6 +79,9 @@ def run_verus_unit(uid, tier='quick', keep=True):
                              repo_loc='%s:%d' % (f['repo_file'], f['repo_lines'][0])))
     for t in tfuncs:
         if t['name'] == 'main' or t['kind'] == 'spec':
+            continue
+        if t.get('imported'):
+            res.setdefault('imports', []).append(t['imported'])
             continue
         if t['assumed']:
             res['assumed'].append('%s: %s' % (t['name'], t['sig']))
@@ -138,6 +145,12 @@ def run_verus_unit(uid, tier='quick', keep=True):
                         break
                 if target:
                     break
+            if target is None and d['message'].startswith('assertion failed') and gen.origin[pl - 1][0] == 'tpl':
+                # a supporting proof step of the template failed: report under the postcondition it serves
+                for o in obls:
+                    if o['function'] == fn and o['kind'] in ('postcondition', 'loop-ensures', 'loop-invariant', 'loop-invariant_except_break'):
+                        target = o
+                        break
             if target is None:
                 for o in obls:
                     if o['function'] == fn and o['kind'] in ('safety', 'lemma', 'template-exec-fn'):
